@@ -98,6 +98,14 @@ def step (st : St) (j : Json) : Except String (St × Json × List Fired) := do
         | some req => req.vals.contains val && !(s.reports rid).contains val && decide (rid > s.lastExpired) && permOf eids req.eids && eids.Nodup
       if !okAuth then
         fired := [{ name := "unauthorised_report_accepted", detail := mkObj [("val", jn val), ("rid", jn rid), ("eids", jl (eids.map jn))] }]
+    -- monitor: the complete report of a chosen validator (every requested external id exactly once, in ANY order, within the
+    -- size limit, before expiry, first report) is accepted — otherwise min_count is never reached and the request expires
+    if (← jstr out "err") != "" && !oversize then
+      let complete := match s.requests rid with
+        | none => false
+        | some req => req.vals.contains val && !(s.reports rid).contains val && decide (rid > s.lastExpired) && permOf eids req.eids && eids.Nodup && !eids.isEmpty
+      if complete then
+        fired := fired ++ [{ name := "complete_report_of_chosen_validator_rejected", detail := mkObj [("val", jn val), ("rid", jn rid), ("eids", jl (eids.map jn)), ("err", js ((jstr out "err").toOption.getD ""))] }]
     -- monitor: a request is queued for resolution at most once (a duplicate entry is resolved twice:
     -- two resolve events / signing requests / IBC packets for one request)
     let ipend ← jnatList out "pending"
